@@ -161,7 +161,19 @@ def run_post_case(impl, case, out):
             if not alive or disc:
                 V(out, impl, 'session_ended_unexpectedly', 'body', 'alive=%s disconnects=%r' % (alive, [d[2] for d in disc]), case)
             if mid:
-                return          # polls are on hold during the handshake: PING / NOOP delivery is C03/C06/C07's business
+                # polls are on hold during the handshake; the PINGs that fall due meanwhile (the one after OPEN and the one
+                # re-armed by each PONG) must come out on the WebSocket once the handshake completes
+                w.run_until(T_BODY + INTERVAL + 0.125)
+                w.ws_send(up, '5')
+                w.run()
+                w.run_until(T_BODY + INTERVAL + 0.25)
+                npings = peer.ws_frames(up).count('2')
+                want = 1 + (1 if ref['pongs'] else 0)
+                if npings < want:
+                    V(out, impl, 'ping_missing' if not ref['pongs'] else 'pong_did_not_rearm', 'handshake_outlasts_interval',
+                      '%d PING frames after the upgrade completed at %.3f, want %d (OPEN at 0, PONG at %.1f, interval %.1f)'
+                      % (npings, T_BODY + INTERVAL + 0.125, want, T_BODY, INTERVAL), case)
+                return
             # PONG re-arms the heartbeat; UPGRADE is answered with NOOP
             pings, noops = [], []
             poll_loop(w, sid, T_BODY + INTERVAL + 0.25, pings, noops, pending)
